@@ -28,13 +28,17 @@ if __name__ == "__main__":
 import common
 import translate_effects as TE
 
-RULE = ("histories: state kind in {positive, complex, density} x nv 2..4 x nh 1..4 (x na 1..3), seed, then 4..12 operations "
-        "drawn from a weighted grammar (reseed, reinitialize, sample, observable sample/statistics, System.statistics, fit "
-        "[epochs 1..2, batch sizes, k, lr, bases, SGD/Adam, Timer, evaluator callbacks], probability/psi/rho/normalization, "
-        "fidelity/KL/NLL, rotations, save/load/autoload, gradients); each history is run twice with numpy / random perturbed "
-        "(a subset a third time in a fresh interpreter with another PYTHONHASHSEED) and once with another seed; "
-        "a history is non-trivial if it draws from the torch generator after seeding (sample / statistics / fit) and contains "
-        "a read-only operation whose parameter bytes are compared")
+RULE = ("fixed cases first: 9 seed pairs (across 2**31, beyond 32 bits, negative, adjacent; one pair congruent mod 2**32 = known finding), "
+        "reseed-restarts-the-stream, and per state kind one history with fit(time=5.0), parameter entries poked to 75.0 / NaN, save, sample, "
+        "statistics, gradients, metrics; then random histories: state kind in {positive, complex, density} x nv 2..4 x nh 1..4 (x na 1..3), "
+        "seed from every regime with set_random_seed flag combinations, then 4..12 operations drawn from a weighted grammar (reseed, "
+        "reinitialize, poke [NaN, +-inf, |w|>50, 1e6], sample, observable sample/statistics/statistics_from_samples, System, fit [epochs 1..2, "
+        "batch sizes, k, lr, bases, SGD/Adam/momentum, scheduler, time in {False, True, numbers}, evaluator / ModelSaver / EarlyStopping / Logger "
+        "/ Lambda callbacks], probability/psi/rho/normalization/RBM-level calls, fidelity/KL/NLL, rotations incl. explicit psi=/rho=, "
+        "save/load/autoload, gradients, data loaders); each history is run twice with numpy / random / environment / wall clock perturbed "
+        "(the second run's clock is far ahead and jumps at every reading), once with another seed, and a subset a third time in a fresh "
+        "interpreter with another PYTHONHASHSEED; a history is non-trivial if it draws from the torch generator after seeding "
+        "(sample / statistics / fit) and contains a read-only operation whose parameter bytes are compared")
 ASSUMPTIONS = [
     "effect table regenerated from the Python sources by harness/translate_effects.py (name-based, conservative call resolution); "
     "callables supplied by the user (optimizer / scheduler classes, metric functions, LambdaCallback functions, logger_fn, metadata "
@@ -175,9 +179,16 @@ def _wrap(owner, name, kind, label):
     if isinstance(orig, type):
         return                                  # classes are left alone (the translator flags any reference to them)
 
+    skewable = kind == "Clock" and name in ("time", "perf_counter", "monotonic", "process_time")
+
     def w(*a, **k):
         _record(kind, label)
-        return orig(*a, **k)
+        r = orig(*a, **k)
+        if skewable and _STATE.get("clock_skew"):
+            # the wall clock of the second run is far ahead and jumps at every reading: nothing may depend on it
+            _STATE["clock_calls"] = _STATE.get("clock_calls", 0) + 1
+            r = r + _STATE["clock_skew"] * _STATE["clock_calls"]
+        return r
     w._c14_wrapped = True
     w.__name__ = getattr(orig, "__name__", name)
     w.__doc__ = getattr(orig, "__doc__", None)
@@ -280,7 +291,7 @@ KINDS = ["positive", "complex", "density"]
 OBS = ["SigmaX", "SigmaY", "SigmaZ", "Neighbour", "NeighbourPBC", "SWAP", "Sum", "Prod", "Neg"]
 OP_WEIGHTS = {"reseed": 1.0, "reinit": 0.7, "sample": 3.0, "obs_sample": 1.5, "statistics": 2.0, "system_statistics": 1.0,
               "fit": 2.5, "evaluate": 2.5, "metric": 2.0, "rotate": 1.8, "save": 1.0, "load": 0.7, "autoload": 0.5,
-              "gradient": 2.0, "stats_from_samples": 1.0, "load_data": 0.5}
+              "gradient": 2.0, "stats_from_samples": 1.0, "load_data": 0.5, "poke": 0.6}
 READ_ONLY_OPS = {"sample", "obs_sample", "statistics", "system_statistics", "evaluate", "metric", "rotate", "save", "gradient",
                  "stats_from_samples", "load_data"}
 SEED_FLAGS = [{"cpu": True, "gpu": False}, {"cpu": True, "gpu": True}, {}, {"cpu": True}, {"gpu": True}]
@@ -302,11 +313,28 @@ def _bases(rng, n, nv, nz=2):
     return [rows[i] for i in order]
 
 
+def gen_seed(rng):
+    """seeds from every regime the seeding call accepts: small, around 2**31 / 2**32, beyond 32 bits, negative."""
+    r = rng.random()
+    if r < 0.4:
+        return int(rng.integers(0, 2 ** 31 - 1))
+    if r < 0.6:
+        return int(2 ** 31 + rng.integers(-3, 2 ** 31))
+    if r < 0.8:
+        return int(2 ** 32 * rng.integers(1, 2 ** 8) + rng.integers(0, 2 ** 32))
+    return -int(rng.integers(1, 2 ** 33))
+
+
 def gen_op(rng, kind, nv, name, thorough):
     op = {"op": name}
     if name == "reseed":
-        op["seed"] = int(rng.integers(0, 2 ** 31 - 1))
+        op["seed"] = gen_seed(rng)
         op["flags"] = SEED_FLAGS[int(rng.integers(0, len(SEED_FLAGS)))]
+    elif name == "poke":
+        op["net"] = str(rng.choice(["rbm_am", "rbm_ph"]))
+        op["param"] = int(rng.integers(0, 5))
+        op["index"] = int(rng.integers(0, 64))
+        op["value"] = str(rng.choice(["nan", "inf", "-inf", "75.0", "-60.0", "1e6", "1e-300", "0.0"]))
     elif name == "stats_from_samples":
         op["obs"] = [str(x) for x in rng.choice(OBS, size=int(rng.integers(1, 4)), replace=False)]
         op["A"] = sorted(int(a) for a in rng.choice(nv, size=int(rng.integers(1, nv)), replace=False)) if nv > 1 else [0]
@@ -342,7 +370,7 @@ def gen_op(rng, kind, nv, name, thorough):
         op["k"] = int(rng.integers(1, 4))
         op["lr"] = float(rng.choice([1e-3, 1e-2, 0.1, 0.5]))
         op["optimizer"] = str(rng.choice(["SGD", "SGD", "Adam", "SGDm"]))
-        op["time"] = bool(rng.random() < 0.3)
+        op["time"] = [False, False, True, 5.0, 7, 1e3][int(rng.integers(0, 6))]     # a number is truthy: a Timer is attached
         op["callbacks"] = [str(c) for c in rng.choice(["none", "obs", "metric", "both"], size=1)]
         op["extra_callbacks"] = sorted(str(c) for c in rng.choice(["saver", "saver_fn", "early", "logger", "lambda"],
                                                                   size=int(rng.integers(0, 4)), replace=False))
@@ -383,7 +411,7 @@ def gen_history(rng, thorough, weights=None, kind=None):
     if kind == "density" and nv > 3:
         nv = 3
     nh = int(rng.integers(1, 5))
-    h = {"kind": kind, "nv": nv, "nh": nh, "na": int(rng.integers(1, 4)), "seed": int(rng.integers(0, 2 ** 31 - 1)),
+    h = {"kind": kind, "nv": nv, "nh": nh, "na": int(rng.integers(1, 4)), "seed": gen_seed(rng),
          "seed_flags": SEED_FLAGS[int(rng.integers(0, len(SEED_FLAGS)))], "ops": []}
     names = list(weights)
     p = [weights[n] for n in names]
@@ -485,6 +513,19 @@ class Runner:
         from qucumber.nn_states import PositiveWaveFunction, ComplexWaveFunction, DensityMatrix
         h = self.h
         os.makedirs(self.workdir, exist_ok=True)
+        _STATE["clock_skew"] = 100.0 if self.perturb else 0.0
+        _STATE["clock_calls"] = 0
+        try:
+            return self._run()
+        finally:
+            _STATE["clock_skew"] = 0.0
+            for key in _STATE.get("env_keys", ()):
+                os.environ.pop(key, None)
+
+    def _run(self):
+        import torch, numpy as np, qucumber
+        from qucumber.nn_states import PositiveWaveFunction, ComplexWaveFunction, DensityMatrix
+        h = self.h
         self.perturb_foreign(0)
         self.timed([qucumber.set_random_seed], lambda: qucumber.set_random_seed(h["seed"], quiet=True, **h.get("seed_flags", {"cpu": True, "gpu": False})))
         cls = {"positive": PositiveWaveFunction, "complex": ComplexWaveFunction, "density": DensityMatrix}[h["kind"]]
@@ -533,6 +574,14 @@ class Runner:
         is_wf = isinstance(st, WaveFunctionBase)
         if name == "reseed":
             return [qucumber.set_random_seed], lambda: qucumber.set_random_seed(op["seed"], quiet=True, **op.get("flags", {}))
+        if name == "poke":
+            def do_poke():          # the harness (not the library) writes a degenerate value into one parameter entry
+                ps = list(getattr(st, op["net"] if op["net"] in st.networks else st.networks[0]).parameters())
+                p_ = ps[op["param"] % len(ps)]
+                with torch.no_grad():
+                    p_.view(-1)[op["index"] % p_.numel()] = float(op["value"])
+                return None
+            return [], do_poke
         if name == "reinit":
             return [T.reinitialize_parameters], lambda: st.reinitialize_parameters()
         if name == "sample":
@@ -852,19 +901,22 @@ def check_history(ctx, h, subprocess_too=False, count=True, other_seed=True):
     ctx.require("identically seeded runs leave torch's generator in the same state (every continuation is reproducible)", d is None,
                 dict(case, first_differing_operation=op_label(h, d)), "generator state digests differ")
     for (idx, exc, msg) in a.raised[:3]:
-        ctx.count("operation_raised")                  # never on the unchanged tree; such an operation is not counted as exercised
+        poked = any(o["op"] == "poke" for o in h["ops"][:max(idx - 2, 0)])
+        # without a poke (degenerate parameter written by the harness) this never happens on the unchanged tree
+        ctx.count("operation_raised_after_poke" if poked else "operation_raised")
         ctx.notes.append("operation raised %s (%s) in history %s" % (exc, msg, json.dumps(desc)))
     _STATE.setdefault("entered", set()).update(n for (entries, _h) in a.hits for n in entries)
     # ---- another seed: the generator state (hence every later draw) must depend on the seed after every operation
     if other_seed:
-        h2 = dict(h, seed=(h["seed"] + 1 + h["seed"] % 7) % (2 ** 31 - 1),
-                  ops=[dict(o, seed=(o["seed"] + 3 + o["seed"] % 5) % (2 ** 31 - 1)) if o["op"] == "reseed" else o for o in h["ops"]])
+        h2 = dict(h, seed=h["seed"] + 1 + h["seed"] % 7,
+                  ops=[dict(o, seed=o["seed"] + 3 + o["seed"] % 5) if o["op"] == "reseed" else o for o in h["ops"]])
         c = Runner(h2, os.path.join(wd, "o"), perturb=0, record_hits=False).run()
         same = [i for i, (x, y) in enumerate(zip(a.rng_states, c.rng_states)) if x == y]
         ctx.require("a different seed leaves torch's generator in a different state after every operation (later draws differ)",
                     not same, dict(case, other_seed=h2["seed"], first_differing_operation=op_label(h, same[0]) if same else None),
                     "generator state identical for two different seeds")
-        big = [i for i, o in enumerate(h["ops"]) if o["op"] == "sample" and o["n"] * h["nv"] >= 64 and "init" not in o]
+        first_poke = min([i for i, o in enumerate(h["ops"]) if o["op"] == "poke"] + [len(h["ops"])])
+        big = [i for i, o in enumerate(h["ops"]) if o["op"] == "sample" and o["n"] * h["nv"] >= 64 and "init" not in o and i < first_poke]
         for i in big[:2]:
             ctx.require("a different seed gives different Bernoulli draws (>= 64 outcomes)", a.outputs[i + 1] != c.outputs[i + 1],
                         dict(case, other_seed=h2["seed"], operation=op_label(h, i + 1)), "samples identical")
@@ -933,26 +985,64 @@ def run_in_subprocess(ctx, h, wd):
     return out
 
 
-def check_other_seed(ctx, kind, nv, nh, seed):
-    """a different seed gives different draws: 64+ Bernoulli outcomes + the randn-initialised weights."""
-    import torch
-    h1 = {"kind": kind, "nv": nv, "nh": nh, "na": 2, "seed": seed, "ops": [{"op": "sample", "k": 2, "n": max(16, 64 // nv + 1)}]}
-    h2 = dict(h1, seed=(seed + 1 + (seed % 7)) % (2 ** 31 - 1))
+def check_seed_pair(ctx, kind, nv, nh, s1, s2):
+    """two different seeds give different draws: randn-initialised weights and 64+ Bernoulli outcomes.
+    Seeds congruent modulo 2**32 are reported under the known-findings key (torch's CPU generator keeps 32 bits)."""
+    h1 = {"kind": kind, "nv": nv, "nh": nh, "na": 2, "seed": s1, "seed_flags": {"cpu": True, "gpu": False},
+          "ops": [{"op": "sample", "k": 2, "n": max(16, 64 // nv + 1)}]}
+    h2 = dict(h1, seed=s2)
     wd = os.path.join(ctx.scratch, "s%d" % ctx.evaluations)
     a = Runner(h1, wd, record_hits=False).run()
     b = Runner(h2, wd, record_hits=False).run()
-    case = {"history": h1, "other_seed": h2["seed"]}
-    ctx.case({"other_seed": True, "kind": kind, "nv": nv, "nh": nh, "seed": seed}, nontrivial=False)
-    ctx.require("a different seed gives different Bernoulli draws (>= 64 outcomes)", a.outputs[1] != b.outputs[1], case, "samples identical")
-    ctx.require("a different seed gives different initial weights", a.params[0] != b.params[0], case, "initial parameters identical")
-    # seeding twice with the same seed after consuming randomness restarts the stream (set_random_seed overwrites the generator)
-    import qucumber
+    congruent = (s1 - s2) % (2 ** 32) == 0
+    case = {"history": h1, "other_seed": s2, "seeds": [s1, s2], "seeds_congruent_mod_2_32": bool(congruent)}
+    ctx.case({"seed_pair": [s1, s2], "kind": kind, "nv": nv, "nh": nh}, nontrivial=not congruent)
+    ctx.count("seed_pair:" + ("congruent_mod_2**32" if congruent else "distinct_mod_2**32"))
+    differ = (a.outputs[1] != b.outputs[1]) and (a.params[0] != b.params[0])
+    ctx.require("a different seed yields different draws", differ, case,
+                {"weights_identical": a.params[0] == b.params[0], "samples_identical": a.outputs[1] == b.outputs[1]})
+    ctx.traces += 2
+
+
+def check_reseed_restarts(ctx, seed):
+    """seeding twice with the same seed after consuming randomness restarts the stream (set_random_seed overwrites the generator)."""
+    import torch, qucumber
+    case = {"seed": seed}
     qucumber.set_random_seed(seed, quiet=True)
     x = torch.rand(5)
     torch.rand(int(seed % 13) + 1)
     qucumber.set_random_seed(seed, quiet=True)
     y = torch.rand(5)
     ctx.require("set_random_seed overwrites the torch generator state", bool(torch.equal(x, y)), case, "")
+
+
+def seed_pairs(rng):
+    """pairs of DIFFERENT seeds from every regime (small, across 2**31, beyond 32 bits, negative) + one congruent pair."""
+    s = int(rng.integers(1, 2 ** 31 - 1))
+    t = int(rng.integers(1, 2 ** 31 - 1))
+    return [(s, s + 2 ** 31), (2 ** 31 - 1, 2 ** 31), (t, t + 2 ** 31 + 2 ** 35), (s, -s), (-t, -t - 2 ** 31),
+            (s, s + 1), (t + 2 ** 40, t + 2 ** 40 + 2 ** 31), (0, 2 ** 31),
+            (s, s + 2 ** 32)]           # the last one is the known finding F-C14-seed-mod-2-32
+
+
+def fixed_histories():
+    """regimes that must be exercised in every run, before the random stream: numeric fit(time=...), degenerate parameters."""
+    data = [[0.0, 1.0, 1.0], [1.0, 0.0, 1.0], [1.0, 1.0, 0.0], [0.0, 0.0, 1.0], [1.0, 1.0, 1.0], [0.0, 1.0, 0.0], [1.0, 0.0, 0.0], [0.0, 0.0, 0.0]]
+    bases = [["Z", "Z", "Z"], ["Z", "Z", "Z"], ["X", "Z", "Y"], ["Z", "X", "Z"], ["Y", "Y", "Z"], ["Z", "Z", "X"], ["X", "X", "X"], ["Z", "Y", "Z"]]
+    fit = {"op": "fit", "data": data, "bases": bases, "epochs": 2, "pbs": 3, "nbs": 0, "k": 1, "lr": 0.1, "optimizer": "SGD",
+           "time": 5.0, "callbacks": ["none"], "extra_callbacks": [], "scheduler": False}
+    smp = {"op": "sample", "k": 2, "n": 24}
+    stat = {"op": "statistics", "obs": ["SigmaX"], "A": [0], "k": 1, "n": 6, "chains": 0, "burn_in": 2, "steps": 1}
+    ev = {"op": "evaluate", "what": "probability", "num": 1}
+    out = []
+    for kind in KINDS:
+        pokes = [{"op": "poke", "net": "rbm_am", "param": 0, "index": 1, "value": v} for v in ("75.0", "nan")]
+        out.append({"kind": kind, "nv": 3, "nh": 2, "na": 2, "seed": 2 ** 31 + 77, "seed_flags": {"cpu": True, "gpu": True},
+                    "ops": [fit, smp, pokes[0], smp, stat, ev, {"op": "save", "metadata": True},
+                            {"op": "gradient", "what": "batch", "samples": data[:4], "neg": data[4:], "bases": bases[:4], "k": 1},
+                            pokes[1], {"op": "save", "metadata": False}, ev, smp, stat,
+                            {"op": "metric", "what": "NLL", "target_seed": 1, "bases": ["XZZ", "ZZY"], "samples": data[:4], "sample_bases": bases[:4]}]})
+    return out
 
 
 # =============================================================================== entry points
@@ -1007,11 +1097,15 @@ def run(ctx):
     budget = 300.0 if ctx.thorough else 32.0
     max_hist = 500 if ctx.thorough else 60
     n_sub = 6 if ctx.thorough else 2
-    # other-seed cases
-    for kind in KINDS:
-        for _ in range(3 if ctx.thorough else 1):
-            nv = int(rng.integers(2, 4 if kind == "density" else 5))
-            check_other_seed(ctx, kind, nv, int(rng.integers(1, 5)), int(rng.integers(0, 2 ** 31 - 1)))
+    # ---- fixed cases first: seed pairs from every regime, numeric fit(time=...), degenerate parameter values
+    pairs = seed_pairs(rng)
+    for j, (s1, s2) in enumerate(pairs * (2 if ctx.thorough else 1)):
+        kind = KINDS[j % 3]
+        check_seed_pair(ctx, kind, 3 if kind == "density" else 2 + j % 3, 1 + j % 4, s1, s2)
+    check_reseed_restarts(ctx, pairs[0][0])
+    check_reseed_restarts(ctx, pairs[0][1])
+    for h in fixed_histories():
+        check_history(ctx, h)
     weights = weights_for(viol) if viol else None
     i = 0
     while i < max_hist and time.time() - t0 < budget:
@@ -1069,7 +1163,7 @@ def shrink(ctx, rec):
     """drop operations from the failing history while the same oracle keeps failing."""
     case = rec.get("case", {})
     h = case.get("history")
-    if not h or "other_seed" in case:
+    if not h or "seeds" in case:
         return rec
     what = rec["what"]
     t0 = time.time()
@@ -1111,8 +1205,10 @@ def replay(ctx, rec):
     print("replay of history", json.dumps(history_desc(h)))
     if case.get("env_keys"):
         _STATE.setdefault("env_keys", set()).update(case["env_keys"])
-    if "other_seed" in case:
-        check_other_seed(ctx, h["kind"], h["nv"], h["nh"], h["seed"])
+    if "seeds" in case:
+        check_seed_pair(ctx, h["kind"], h["nv"], h["nh"], case["seeds"][0], case["seeds"][1])
+    elif "other_seed" in case and "ops" not in h:
+        check_reseed_restarts(ctx, h["seed"])
     else:
         check_history(ctx, h, subprocess_too=("hashseed" in case))
 
